@@ -165,10 +165,22 @@ func cmdCheck(args []string) int {
 	// part of this property's check: drop it here (generic obligations - frames, safety, unlabelled invariants and
 	// preconditions, covers - stay).
 	otherProp := regexp.MustCompile(`^C[0-9][0-9]\.`)
+	orphanLabels := map[string]bool{}
 	for _, u := range units {
 		var keep []*Obl
 		for _, o := range u.Obls {
 			if otherProp.MatchString(o.Label) && !strings.HasPrefix(o.Label, *prop+".") && u.Contract != nil && len(u.Contract.Props) > 1 {
+				// ... but only if the property the label names checks this unit; otherwise the clause would be
+				// dropped under every property and never checked at all (a silent hole, reported as a contract error)
+				listed := false
+				for _, pr := range u.Contract.Props {
+					if strings.HasPrefix(o.Label, pr+".") {
+						listed = true
+					}
+				}
+				if !listed {
+					orphanLabels[fmt.Sprintf("%s: clause [%s] names a property that is not in the unit's props (%s): it would never be checked", shortKey(u.Key), o.Label, strings.Join(u.Contract.Props, " "))] = true
+				}
 				continue
 			}
 			keep = append(keep, o)
@@ -200,6 +212,9 @@ func cmdCheck(args []string) int {
 	var fns []string
 	assume := map[string]bool{}
 	for _, e := range p.errs {
+		viols = append(viols, viol{id: *prop + "#contracts", why: "contract error: " + e})
+	}
+	for e := range orphanLabels {
 		viols = append(viols, viol{id: *prop + "#contracts", why: "contract error: " + e})
 	}
 	for _, u := range units {
